@@ -1,8 +1,10 @@
 SPECIFICATION GSpec
 CONSTANTS
   Impl = "fresh"
+  DecImpl = "copy"
+  Sides = {"out", "in"}
   Objs <- ModelObjs
   TextOf <- ModelText
   MaxOps = 4
-INVARIANTS Emit ValuesNotViews RoundTripsToOwn
+INVARIANTS Emit ValuesNotViews RoundTripsToOwn DecodedIndependent
 CHECK_DEADLOCK FALSE
